@@ -17,6 +17,18 @@ Theorem C13_schedule_independent : forall chunks intr, Forall (fun c => c <> [])
 Proof. exact schedule_independent. Qed.
 Theorem C13_error_propagates : forall a b, existsb is_err (upto_eof a) = true -> read_all (a ++ b) = None.
 Proof. exact error_not_hashed_past. Qed.
+(* hash_patch reads line by line (BufReader::split): for every schedule without 0-byte reads what it hashes is the
+   filter applied to all the bytes read ... *)
+Theorem C13_patch_schedule : forall evs, no_zero_read evs -> hash_patch_pre evs = option_map filter_patch (read_all evs).
+Proof. exact patch_schedule. Qed.
+(* ... while a 0-byte read (which io::copy takes for the end of the file) only ends the LINE being collected when it
+   comes in the middle of one, and the stream when it comes at a line boundary: found by the model audit, outside
+   the property's read schedules, modelled as the code behaves *)
+Theorem C13_zero_read_mid_line : forall a b rest, a <> [] -> mem 10 a = false ->
+  hash_patch_pre (EData a :: EData [] :: EData b :: rest) = option_map (fun t => keep_line a ++ t) (hash_patch_pre (EData b :: rest)).
+Proof. exact patch_zero_read_mid_line. Qed.
+Theorem C13_zero_read_at_boundary : forall a rest, hash_patch_pre (EData (a ++ [10]) :: EData [] :: rest) = hash_patch_pre [EData (a ++ [10])].
+Proof. exact patch_zero_read_at_boundary. Qed.
 (* the patch hash input: the newline-terminated lines without '$NetBSD' ... *)
 Theorem C13_patch_filter : forall ls, Forall (fun l => mem 10 l = false) ls ->
   filter_patch (nl_term ls) = nl_term (filter keep ls).
